@@ -111,7 +111,13 @@ func forward(in net.Conn, tunnel *Tunnel) {
 		}
 		binary.Write(b1, binary.LittleEndian, uint16(n))
 		b1.Write(buf[:n])
-		tunnel.Write(createPacket(PKT_TYPE_DATA, b1.Bytes()))
+		if err := tunnel.Write(createPacket(PKT_TYPE_DATA, b1.Bytes())); err != nil {
+			// the outgoing side of the tunnel is gone. Closing the incoming side ends
+			// the packet loop, which releases what the tunnel holds
+			log.Printf("Error writing to client %s", err)
+			tunnel.transportIn.Close()
+			break
+		}
 		b1.Reset()
 	}
 }
